@@ -3,7 +3,7 @@
 from .. import world
 from ..oracle import Violation, exc_text, image_vars, tree_diff
 from ..sim import SIM
-from . import common
+from . import common, select
 
 ID = "C06"
 LEVEL = "exploration"
@@ -34,7 +34,14 @@ def generate(rng, tier, index):
         if r not in rpcs:
             rpcs.append(r)
     rpcs = rpcs[:rng.randint(2, 4)]
-    return {"world": wp, "rpcs": rpcs, "cached": rng.random() < 0.4}
+    # the same short sequence of partial reads is done on every tree before the comparison: "what
+    # is read" must not depend on r for any read sequence, not only for one full load
+    k = rng.randrange(len(wp["images"]))
+    im = wp["images"][k]
+    pre = [select.gen_selection(rng, im["lines"], im["pixels"])
+           for _ in range(rng.choice([0, 1, 2, 3]))]
+    return {"world": wp, "rpcs": rpcs, "cached": rng.random() < 0.4, "pre_image": k,
+            "pre_reads": pre}
 
 
 def execute(plan):
@@ -70,6 +77,32 @@ def execute(plan):
                         "rpc": r, "error": exc_text(e), "options": opts}))
                     continue
             trees.append((r, t))
+        # partial reads, identical on every tree
+        import numpy as np
+
+        from ..oracle import bits_of
+
+        pre_results = []
+        name_k = prod.images[plan.get("pre_image", 0)]
+        for r, t in trees:
+            res = []
+            for sel in plan.get("pre_reads", []):
+                try:
+                    v = select.apply(t["imagery"][prod.groups[name_k]]["data"], sel).load().values
+                    res.append(("ok", v.shape, str(v.dtype),
+                                bits_of(v, prod.level).tobytes() if bits_of(v, prod.level)
+                                is not None else None))
+                except Exception as e:  # noqa: BLE001
+                    res.append(("raised", type(e).__name__))
+            pre_results.append(res)
+        for (r, t), res in zip(trees[1:], pre_results[1:]):
+            for i, (a, b) in enumerate(zip(pre_results[0], res)):
+                if a != b:
+                    violations.append(Violation(ID, "partial-read-differs", "cached" if cached else
+                                                "uncached", {
+                        "rpc_a": trees[0][0], "rpc_b": r, "selection": plan["pre_reads"][i],
+                        "a": a[:3] if a[0] == "ok" else a, "b": b[:3] if b[0] == "ok" else b}))
+                    break
         if len(trees) >= 2:
             r0, t0 = trees[0]
             for r, t in trees[1:]:
@@ -101,6 +134,9 @@ def execute(plan):
 
 
 def shrink(plan):
+    pre = plan.get("pre_reads") or []
+    for k in range(len(pre)):
+        yield common.with_(plan, pre_reads=pre[:k] + pre[k + 1:])
     if len(plan["rpcs"]) > 2:
         for k in range(len(plan["rpcs"])):
             yield common.with_(plan, rpcs=plan["rpcs"][:k] + plan["rpcs"][k + 1:])
